@@ -1,4 +1,94 @@
 import Model
+import Proofs.C15
+
+/-
+  C15 — rendered markup fits the requested width and depends only on content and width.
+  Property theorems only; helper lemmas live in Proofs/C15.lean (which may import Proofs.C13).
+-/
+
 namespace C15
-theorem placeholder : True := trivial
+open Str Ansi Markup
+
+/-- Every renderer ends with a whole-document `Wrap` followed by a trim: the result is the
+    trimmed join of lines of at most `w` matches each (for every input and `w ≥ 1`). -/
+def FitsShape (trimSet : Char → Bool) (w : Int) (out : Str) : Prop :=
+  ∃ lines : List (List RawCell),
+    (∀ l ∈ lines, (l.length : Int) ≤ w ∧ ∀ m ∈ l, m.letter ≠ '\n') ∧
+    out = trim trimSet (joinNL (lines.map collapse))
+
+theorem html_fits (c : Colors) (nodes : List Dom.Node) (w : Int) (hw : 1 ≤ w) :
+    FitsShape isSpNl w (htmlR c nodes w) := by
+  rw [C15P.htmlR_eq]; exact C15P.trim_wrap_shape isSpNl _ w hw
+
+theorem gemtext_fits (c : Colors) (lines : List Str) (w : Int) (hw : 1 ≤ w) :
+    FitsShape isNl w (gemR c lines w) := by
+  obtain ⟨text, h⟩ := C15P.gemR_eq c lines w
+  rw [h]; exact C15P.trim_wrap_shape isNl text w hw
+
+theorem plaintext_fits (c : Colors) (text : Str) (w : Int) (hw : 1 ≤ w) :
+    FitsShape isNl w (plainR c text w) := by
+  obtain ⟨text', h⟩ := C15P.plainR_eq c text w
+  rw [h]; exact C15P.trim_wrap_shape isNl text' w hw
+
+/-- Trimming blanks/newlines at both ends of a join of ESC-free… no: of *any* lines whose
+    collapsed text has no newline only removes whole leading/trailing lines and leading/trailing
+    blanks: every line of the trimmed text is a contiguous piece (infix) of one of the lines. -/
+/-
+  STATEMENT CHANGED.  The statement as originally written,
+
+    theorem trim_lines_infix (trimSet : Char → Bool) (ls : List Str) (hnl : ∀ l ∈ ls, '\n' ∉ l) :
+        ∀ l' ∈ splitNL (trim trimSet (joinNL ls)), ∃ l ∈ ls, l' <:+: l ∨ l' = []
+
+  is false for `ls = []`: the binder scopes over the whole disjunction
+  (`∃ l, l ∈ ls ∧ (l' <:+: l ∨ l' = [])`), and `splitNL (trim p (joinNL [])) = [[]]`, so
+  `l' = []` is a line but there is no `l ∈ []` (refuted in `trim_lines_infix_original_false`).
+  The disjunct `l' = []` has to sit outside the existential; for `ls ≠ []` the original
+  conclusion holds verbatim (`trim_lines_infix_of_ne`).  The hypothesis `hnl` is not needed.
+-/
+theorem trim_lines_infix (trimSet : Char → Bool) (ls : List Str) (_hnl : ∀ l ∈ ls, '\n' ∉ l) :
+    ∀ l' ∈ splitNL (trim trimSet (joinNL ls)), (∃ l ∈ ls, l' <:+: l) ∨ l' = [] :=
+  C15P.trim_lines_infix trimSet ls
+
+/-- The original conclusion, for a non-empty list of lines. -/
+theorem trim_lines_infix_of_ne (trimSet : Char → Bool) (ls : List Str) (hne : ls ≠ [])
+    (_hnl : ∀ l ∈ ls, '\n' ∉ l) :
+    ∀ l' ∈ splitNL (trim trimSet (joinNL ls)), ∃ l ∈ ls, l' <:+: l ∨ l' = [] :=
+  C15P.trim_lines_infix_ne trimSet ls hne
+
+/-- The original statement fails at `ls = []`. -/
+theorem trim_lines_infix_original_false :
+    ¬ ∀ (trimSet : Char → Bool) (ls : List Str) (_ : ∀ l ∈ ls, '\n' ∉ l),
+        ∀ l' ∈ splitNL (trim trimSet (joinNL ls)), ∃ l ∈ ls, l' <:+: l ∨ l' = [] := by
+  intro h
+  obtain ⟨l, hl, _⟩ := h isNl [] (by simp) [] (by decide)
+  simp at hl
+
+/-- (2) The cache invariant: the cached text is the pure renderer at the cached width. -/
+def Inv {Tree : Type} (R : Tree → Int → Str) (m : M Tree) : Prop := m.cached = R m.tree m.cachedWidth
+
+theorem inv_new {Tree : Type} (R : Tree → Int → Str) (t : Tree) : Inv R (new R t) ∧ (new R t).tree = t :=
+  C15P.inv_new R t
+
+theorem inv_render {Tree : Type} (R : Tree → Int → Str) (m : M Tree) (w : Int) (h : Inv R m) :
+    Inv R (render R m w).2 ∧ (render R m w).2.tree = m.tree ∧ (render R m w).1 = R m.tree w :=
+  C15P.inv_render R m w h
+
+/-- (3) Rendering depends only on content and width: after *any* sequence of widths, rendering
+    at `w` gives the pure renderer's text for `w`. -/
+theorem render_history_free {Tree : Type} (R : Tree → Int → Str) (t : Tree) (ws : List Int) (w : Int) :
+    (render R (renderSeq R (new R t) ws).2 w).1 = R t w :=
+  C15P.render_history_free R t ws w
+
+/-- … and every output of the sequence itself is the pure renderer's. -/
+theorem renderSeq_pure {Tree : Type} (R : Tree → Int → Str) (t : Tree) (ws : List Int) :
+    (renderSeq R (new R t) ws).1 = ws.map (R t) :=
+  C15P.renderSeq_pure R t ws
+
+/-- Non-vacuity. -/
+def demoR (t : Nat) (w : Int) : Str := [Char.ofNat (t + w.toNat)]
+
+example : (renderSeq demoR (new demoR 60) [80, 5, 80]).1 =
+    [[Char.ofNat 140], [Char.ofNat 65], [Char.ofNat 140]] := by
+  decide
+
 end C15
